@@ -107,7 +107,8 @@ Proof. vm_compute. repeat split; reflexivity. Qed.
              -- with any layout between all tokens; keys are identifiers with an optional modifier,
                 values a digit run / identifier / string literal followed by further characters other
                 than "," ";" (Proofs/ArgLemmas.v: args_ok),
-     IName : a name that starts no bracketed macro call,
+     IName : a name that starts no macro call whose bracket is followed by a name, a string literal or
+             `target:` (vec![..], a != b, assert!(!x), m!(1 + 2) are fine; println!("..") is an IStmt),
      IChar : any other character (not whitespace, not a name start, not opening a comment).
    items_ok is purely syntactic (no hypothesis mentions the parser).  The result is computed in closed
    form by `expected`: one entry per statement whose name is configured and which is not under an
@@ -132,8 +133,8 @@ Theorem C10_canonical_parse_tree : forall its fin,
 Proof. exact file_parse. Qed.
 
 (* non-vacuity: a small program with a header comment, a use line, vec![..], three statements (simple,
-   qualified with a comment inside the brackets and an escaped quote, unconfigured), and a trailing
-   commented-out statement without a final newline *)
+   qualified with a comment inside the brackets and an escaped quote, unconfigured), assert!(!ok), and a
+   trailing commented-out statement without a final newline *)
 Definition ex_items : list (lay * item) :=
   [(([], [(CLine [32;104;101;97;100;101;114], [10])]), IName (mkQ 117 false [(115, false);(101, false)]));
    (([32], []), IName (mkQ 108 false [(111, false);(103, true);(105, false);(110, false);(102, false);(111, false)]));
@@ -161,6 +162,13 @@ Definition ex_items : list (lay * item) :=
    (([], []), IChar 41);
    (([], []), IChar 59);
    (([10;32;32;32;32], []), IStmt (mkQ 112 false [(114, false);(105, false);(110, false);(116, false);(108, false);(110, false)]) ([], []) [MChar 120]);
+   (([], []), IChar 41);
+   (([], []), IChar 59);
+   (([10;32;32;32;32], []), IName (mkQ 97 false [(115, false);(115, false);(101, false);(114, false);(116, false)]));
+   (([], []), IChar 33);
+   (([], []), IChar 40);
+   (([], []), IChar 33);
+   (([], []), IName (mkQ 111 false [(107, false)]));
    (([], []), IChar 41);
    (([], []), IChar 59);
    (([10], []), IChar 125)].
